@@ -178,7 +178,10 @@ class Snapshot:
         if o.cores and o.cores[0].dtype != self.dtype:
             return "dtype changed from %s to %s" % (self.dtype, o.cores[0].dtype)
         same = all(a.shape == b.shape and torch.equal(a.detach().resolve_conj(), b) for a, b in zip(o.cores, self.values))
+        if same and all(bool(torch.isfinite(b).all()) for b in self.values):
+            return None
         if same:
+            # torch.equal is False for nan anyway; an operand that had non-finite entries from the start is not judged
             return None
         # cores differ: is the dense value still the same (gauge change) ?
         try:
@@ -190,7 +193,7 @@ class Snapshot:
             return "value changed (shape of the contraction differs)"
         scale = max(fro(dense([v.abs() for v in self.values])), 1e-300)
         err = fro(new - old)
-        if err > 1e-10 * scale:
+        if not (err <= 1e-10 * scale):        # (also true for nan)
             return "dense value changed: ||new-old|| = %.3g (scale %.3g)" % (err, scale)
         return None
 
@@ -206,11 +209,12 @@ class Machine:
         self.mode = mode          # "wellformed" (C05) or "immutable" (C06)
         self.pool = []
         self.stats = {"ops": 0, "lib_exceptions": {}, "inplace_followed": 0, "optional_arg": 0, "derived_from_modified": 0,
-                      "alias_operand": 0, "skipped": 0}
+                      "skipped": 0}
         self.last_related = []    # result and operands of the previous operation (in-place ops prefer them as receivers)
         self.modified = set()     # ids of objects modified in place
-        self.aliases = set()      # ids of objects that share storage with another pool object
         self.trace = []
+        self.step_before = []     # (object, Snapshot) of operands created during the current step
+        self.in_step = False
 
     # -- helpers ----------------------------------------------------------------------------------
     def keep(self, lst, what):
@@ -238,13 +242,15 @@ class Machine:
         g = self.g(seed)
         d = len(N)
         R = [1] + [int(torch.randint(1, rmax + 1, (1,), generator=g)) for _ in range(d - 1)] + [1]
-        return self.T.TT(core.make_cores({"N": list(N), "R": R, "dt": "f64", "mode": "gauss", "seed": seed}))
+        o = self.T.TT(core.make_cores({"N": list(N), "R": R, "dt": "f64", "mode": "gauss", "seed": seed}))
+        return self.watch_operand(o) if self.in_step else o
 
     def mk_m(self, M, N, seed, rmax=2):
         g = self.g(seed)
         d = len(N)
         R = [1] + [int(torch.randint(1, rmax + 1, (1,), generator=g)) for _ in range(d - 1)] + [1]
-        return self.T.TT(core.make_cores({"N": list(N), "M": list(M), "R": R, "dt": "f64", "mode": "gauss", "seed": seed}))
+        o = self.T.TT(core.make_cores({"N": list(N), "M": list(M), "R": R, "dt": "f64", "mode": "gauss", "seed": seed}))
+        return self.watch_operand(o) if self.in_step else o
 
     def shape_for(self, seed, d=None, lim=MAX_MODE):
         g = self.g(seed)
@@ -258,7 +264,16 @@ class Machine:
         except Exception:
             return False
 
+    def watch_operand(self, o):
+        """operands created inside a step (synthesised partners, divisors, initial guesses) are snapshotted when they are
+        created, i.e. before the library call that receives them"""
+        if self.mode == "immutable" and isinstance(o, self.T.TT) and len(o.cores) > 0:
+            self.step_before.append((o, Snapshot(o)))
+        return o
+
     def add(self, o):
+        if self.mode == "immutable" and getattr(self, "in_step", False):
+            self.watch_operand(o)
         if isinstance(o, self.T.TT) and len(o.cores) > 0 and self.ok_size(o):
             if len(self.pool) >= POOL_CAP:
                 self.pool.pop(3 + (len(self.trace) % (POOL_CAP - 3)))
@@ -438,7 +453,7 @@ class Machine:
                 else:
                     init = None
                     if name.endswith("_init"):
-                        init = self.tensor(c, lambda o: o.N == A.M and same_dt(o) and o is not x)
+                        init = self.tensor(c, lambda o: o.N == A.M and same_dt(o) and (o is not x or p % 5 == 0))
                         if init is None:
                             init = self.mk_t(A.M, seed + 4, rmax=3)
                             init = init.to(dtype=dtA) if dtA != torch.float64 else init
@@ -481,7 +496,7 @@ class Machine:
         elif name in ("tt_div", "ediv", "ediv_start"):
             x = need_t(a, lambda o: realp(o) and len(o.N) >= 2 and int(np.prod(o.N)) <= 200)
             z = self.mk_t(x.N, seed + 3, rmax=1)
-            y = z * z + 1.0
+            y = self.watch_operand(z * z + 1.0)
             self.add(y)
             operands = [x, y]
             torch.manual_seed(seed)
@@ -490,7 +505,7 @@ class Machine:
             else:
                 st = None
                 if name == "ediv_start":
-                    st = self.tensor(c, lambda o: o.N == x.N and realp(o) and o is not x and o is not y)
+                    st = self.tensor(c, lambda o: o.N == x.N and realp(o) and ((o is not x and o is not y) or p % 5 == 0))
                     if st is None:
                         st = self.mk_t(x.N, seed + 4)
                         self.add(st)
@@ -684,7 +699,7 @@ class Machine:
             operands = [x, y]
             init = None
             if name.endswith("_init"):
-                init = self.tensor(c, lambda o: o.N == x.N and o.cores[0].dtype == x.cores[0].dtype and o is not x and o is not y)
+                init = self.tensor(c, lambda o: o.N == x.N and o.cores[0].dtype == x.cores[0].dtype and ((o is not x and o is not y) or p % 5 == 0))
                 if init is None:
                     init = self.mk_t(x.N, seed + 4, rmax=3)
                     init = init.to(dtype=x.cores[0].dtype) if x.cores[0].is_complex() else init
@@ -697,7 +712,7 @@ class Machine:
             N = self.shape_for(seed, lim=4)[:3]
             N = [max(2, n) for n in N]
             E = self.mk_m(N, N, seed + 1)
-            A = T.eye(N) + E * (0.2 / max(float(E.norm()), 1e-300))
+            A = self.watch_operand(T.eye(N) + E * (0.2 / max(float(E.norm()), 1e-300)))
             bvec = self.tensor(b, lambda o: o.N == N and realp(o))
             if bvec is None:
                 bvec = self.mk_t(N, seed + 2)
@@ -706,7 +721,7 @@ class Machine:
             operands = [A, bvec]
             x0 = None
             if name.endswith("_x0"):
-                x0 = self.tensor(c, lambda o: o.N == N and realp(o) and o is not bvec)
+                x0 = self.tensor(c, lambda o: o.N == N and realp(o) and (o is not bvec or p % 5 == 0))
                 if x0 is None:
                     x0 = self.mk_t(N, seed + 3)
                     self.add(x0)
@@ -720,7 +735,7 @@ class Machine:
             operands = [x]
             st = None
             if name.endswith("_start"):
-                st = self.tensor(c, lambda o: o.N == x.N and realp(o) and o is not x)
+                st = self.tensor(c, lambda o: o.N == x.N and realp(o) and (o is not x or p % 5 == 0))
                 if st is None:
                     st = self.mk_t(x.N, seed + 4)
                     self.add(st)
@@ -799,6 +814,8 @@ class Machine:
                     break
                 name = op["op"]
                 before = [(o, Snapshot(o)) for o in self.pool] if self.mode == "immutable" else []
+                self.step_before = []
+                self.in_step = True
                 err = None
                 res = target = None
                 operands = []
@@ -807,6 +824,7 @@ class Machine:
                 except LibraryException as e:
                     err = e
                     self.stats["lib_exceptions"][name + "|" + e.bucket] = self.stats["lib_exceptions"].get(name + "|" + e.bucket, 0) + 1
+                self.in_step = False
                 self.stats["ops"] += 1
                 self.trace.append(name if err is None else name + "!")
                 if any(id(o) in self.modified for o in operands) or (target is not None and id(target) in self.modified):
@@ -831,7 +849,8 @@ class Machine:
                             return
                 else:
                     exempt = target if (name in INPLACE and name not in ("watch", "unwatch")) else None
-                    for o, snap in before:
+                    seen_ids = {id(o) for o, _ in before}
+                    for o, snap in before + [(o2, s2) for o2, s2 in self.step_before if id(o2) not in seen_ids and o2 is not res]:
                         if o is exempt:
                             continue
                         msg = snap.changed(o)
